@@ -217,6 +217,8 @@ def handle_rmcp_asf_msg(context, sdu):
     if asf.asf_type == rmcp.AsfMsg.ASF_TYPE_PRESENCE_PING:
         log().debug(f'ASF RX: ping: {asf}')
     pong = rmcp.AsfPong()
+    # the pong carries the message tag of the ping it answers
+    pong.tag = asf.tag
     pdu = pong.pack()
     log().debug(f'ASF TX: pong: {asf}')
     return pdu
